@@ -19,7 +19,7 @@ TRUSTED_BASE = [
     "anyio memory object streams are FIFO; anyio.fail_after raises builtin TimeoutError at the with-exit only",
     "pydantic v2 dispatches model_post_init and decorator validators and never __post_init__",
     "stdlib json.dumps without indent and orjson.dumps without OPT_INDENT_2/OPT_APPEND_NEWLINE emit no raw LF",
-    "may-raise allowlist: logging/traceback calls, isinstance/hasattr/len, 3-argument getattr, str() of a value",
+    "may-raise allowlist: logging/traceback calls, isinstance/hasattr/len, 3-argument getattr, str()/repr() of a caught exception or scalar, str methods on values that are str by construction, zero-argument set/is_set/done/cancel of events, futures and tasks, cancel-scope constructors",
 ]
 
 
